@@ -434,6 +434,28 @@ func (s *scope) setInstance(descriptor *Descriptor, key instanceKey, instance an
 	return nil
 }
 
+// storeOutput stores one output of a constructor with several outputs under
+// the descriptor registered for it. An output whose registration was removed
+// from the collection before the provider was built is not a service of this
+// provider: it is only tracked for disposal, like the outputs it was created
+// with.
+func (s *scope) storeOutput(descriptor *Descriptor, key instanceKey, value any) error {
+	if s.rootProvider.registers(descriptor) {
+		return s.setInstance(descriptor, key, value)
+	}
+
+	if descriptor.Lifetime == Singleton {
+		if d, ok := value.(Disposable); ok {
+			s.rootProvider.disposablesMu.Lock()
+			s.rootProvider.disposables = append(s.rootProvider.disposables, d)
+			s.rootProvider.disposablesMu.Unlock()
+		}
+		return nil
+	}
+
+	return s.setInstance(&Descriptor{Lifetime: Transient}, key, value)
+}
+
 var (
 	contextType  = reflect.TypeOf((*context.Context)(nil)).Elem()
 	providerType = reflect.TypeOf((*Provider)(nil)).Elem()
@@ -660,7 +682,7 @@ func (s *scope) createInstance(descriptor *Descriptor) (any, error) {
 			}
 
 			// Keep going on failure so that every output is accounted for
-			if err := s.setInstance(regDescriptor, key, value); err != nil {
+			if err := s.storeOutput(regDescriptor, key, value); err != nil {
 				storeErr = err
 			}
 		}
@@ -711,7 +733,7 @@ func (s *scope) createInstance(descriptor *Descriptor) (any, error) {
 			}
 
 			// Keep going on failure so that every output is accounted for
-			if err := s.setInstance(serviceDescriptor, key, value); err != nil {
+			if err := s.storeOutput(serviceDescriptor, key, value); err != nil {
 				storeErr = err
 			}
 		}
@@ -750,7 +772,7 @@ func (s *scope) createInstance(descriptor *Descriptor) (any, error) {
 // instance is tracked for disposal only once, by setInstance.
 func (s *scope) shareWithAliases(descriptor *Descriptor, instance any) {
 	for _, alias := range descriptor.family {
-		if alias == descriptor {
+		if alias == descriptor || !s.rootProvider.registers(alias) {
 			continue
 		}
 
